@@ -15,11 +15,11 @@ import (
 )
 
 type vfWSConn struct {
-	c     *websocket.Conn
-	ctx   context.Context
-	mu    sync.Mutex
-	recv  []string // every text message received, in order
-	N     int
+	c    *websocket.Conn
+	ctx  context.Context
+	mu   sync.Mutex
+	recv []string // every text message received, in order
+	N    int
 }
 
 func (w *vfWSConn) Read() (string, error) {
@@ -60,13 +60,13 @@ func (w *vfWSConn) SendFragmented(parts ...string) error {
 func (w *vfWSConn) Close() { w.c.Close(websocket.StatusNormalClosure, "bye") }
 
 type vfWSPeer struct {
-	ln      net.Listener
-	srv     *http.Server
-	handler func(w *vfWSConn)
-	mu      sync.Mutex
-	conns   []*vfWSConn
-	wg      sync.WaitGroup
-	scheme  string
+	ln            net.Listener
+	srv           *http.Server
+	handler       func(w *vfWSConn)
+	mu            sync.Mutex
+	conns         []*vfWSConn
+	wg            sync.WaitGroup
+	scheme        string
 	NoSubprotocol bool
 }
 
